@@ -29,7 +29,7 @@ Fixpoint find_for (attr : string) (s : stmt) {struct s} : option stmt :=
           | None => find_in f
           end
       end
-  | SCallBlock _ body | SBlock _ body | SMacro _ _ body => find_in body
+  | SCallBlock _ body | SBlock _ body | SMacro _ _ _ body => find_in body
   | _ => None
   end.
 
@@ -43,7 +43,7 @@ Fixpoint find_fors (attr : string) (s : stmt) {struct s} : list stmt :=
   | SFor x it test body => if is_typedef_attr attr it then [s] else find_in body
   | SIf _ t elifs f =>
       find_in t ++ (fix go (l : list (expr * list stmt)) : list stmt := match l with [] => [] | (_, b) :: r => find_in b ++ go r end) elifs ++ find_in f
-  | SCallBlock _ body | SBlock _ body | SMacro _ _ body => find_in body
+  | SCallBlock _ body | SBlock _ body | SMacro _ _ _ body => find_in body
   | _ => []
   end.
 Definition find_fors_in (attr : string) (l : list stmt) : list stmt := flat_map (find_fors attr) l.
@@ -62,7 +62,7 @@ Fixpoint find_ifs (tag : string) (s : stmt) {struct s} : list stmt :=
   | SIf c t elifs f =>
       if tests_deriving tag c then [s]
       else find_in t ++ (fix go (l : list (expr * list stmt)) : list stmt := match l with [] => [] | (_, b) :: r => find_in b ++ go r end) elifs ++ find_in f
-  | SFor _ _ _ body | SCallBlock _ body | SBlock _ body | SMacro _ _ body => find_in body
+  | SFor _ _ _ body | SCallBlock _ body | SBlock _ body | SMacro _ _ _ body => find_in body
   | _ => []
   end.
 Definition find_if_tag (tag : string) (l : list stmt) : option stmt := hd_error (flat_map (find_ifs tag) l).
